@@ -64,6 +64,7 @@ def field_type(cls, attr):
 
 
 ALLOC0 = z3.Int("alloc@0")
+RALLOC0 = z3.Int("ralloc@0")
 
 
 def _is_ref(ty):
@@ -77,8 +78,12 @@ def _wf_value(ty, x):
     if isinstance(ty, TOpt) and _is_ref(ty.inner):
         S = ty.sort()
         return z3.Implies(x != S.none, S.val(x) < ALLOC0)
-    if isinstance(ty, TRow) and ty.known:
-        return smt.isgap(x) if ty.known == "gap" else z3.Not(smt.isgap(x))
+    if isinstance(ty, TRow):
+        # every Fragment object of the initial heap was created before the call
+        w = z3.Implies(z3.Not(smt.isgap(x)), smt.oid(x) < RALLOC0)
+        if ty.known:
+            w = z3.And(w, smt.isgap(x) if ty.known == "gap" else z3.Not(smt.isgap(x)))
+        return w
     return None
 
 
@@ -392,6 +397,10 @@ class NS:
     @property
     def alloc(self):
         return object.__getattribute__(self, "_st").alloc
+
+    @property
+    def ralloc(self):
+        return object.__getattribute__(self, "_st").ralloc
 
 
 class SpecInapplicable(Exception):
